@@ -20,32 +20,74 @@ Qed.
 
 Lemma v_pw_send s e r T p ks a o secs s' :
   step_pw_send s e r T p ks a o secs = Ok s' ->
-  view_of s' = vcl (vsent (view_of s) e) T (pw_send_rec (vgetc (view_of s) T) a o).
+  view_of s' = vcl (vsent (view_of s) e) T (pw_send_rec (vgetc (view_of s) T) ks a o).
 Proof.
   unfold step_pw_send. intros H.
-  chk1 H E1. chk1 H E2. chk1 H E3. chk1 H E4. chk1 H E5. chk1 H E6.
+  chk1 H E1. chk1 H E2. chk1 H E2b. chk1 H E3. chk1 H E4. chk1 H E5. chk1 H E6.
   ok_inv H. reflexivity.
 Qed.
 
-Lemma v_pw_deliver s r T ks x s' :
-  step_pw_deliver s r T ks x = Ok s' -> view_of s' = vdlv (view_of s) (EPwReply r T ks x).
+Lemma sent_by_pw s r T ks :
+  sent_by s (fun e => match e with EPwSend r' s' _ ks' _ _ _ _ _ => (r' =? r) && (s' =? T) && leqb ks' ks | _ => false end) = true ->
+  exists p a o m f secs, In (EPwSend r T p ks a o m f secs) (s_sent s).
 Proof.
-  unfold step_pw_deliver. intros H.
-  chk1 H E1. chk1 H E2.
-  destruct x as [m o| |].
+  unfold sent_by. intros H. apply existsb_exists in H. destruct H as [e [H1 H2]].
+  destruct e; try discriminate.
+  repeat (apply andb_true_iff in H2; destruct H2 as [H2 ?]).
+  apply N.eqb_eq in H2. subst.
+  repeat match goal with
+         | X : (_ =? _) = true |- _ => apply N.eqb_eq in X; subst
+         | X : leqb _ _ = true |- _ => apply leqb_eq in X; subst
+         end.
+  do 6 eexists. exact H1.
+Qed.
+
+Lemma v_pw_tail s1 T ks x s' :
+  match x with
+  | PwOk m o =>
+      if o =? 0 then match step_keys s1 T ks (tr_pw m) with Some s' => Ok s' | None => Rej S_prewrite_after_rollback end
+      else match step_keys s1 T ks (tr_1pc o) with Some s' => Ok s' | None => Rej S_onepc end
+  | _ => Ok s1
+  end = Ok s' -> view_of s' = view_of s1.
+Proof.
+  intros H. destruct x as [m o| |].
   - destruct (o =? 0).
     + destruct (step_keys _ T ks (tr_pw m)) eqn:K; try discriminate. ok_inv H.
-      rewrite (step_keys_view _ _ _ _ _ K). reflexivity.
+      exact (step_keys_view _ _ _ _ _ K).
     + destruct (step_keys _ T ks (tr_1pc o)) eqn:K; try discriminate. ok_inv H.
-      rewrite (step_keys_view _ _ _ _ _ K). reflexivity.
+      exact (step_keys_view _ _ _ _ _ K).
   - ok_inv H. reflexivity.
   - ok_inv H. reflexivity.
 Qed.
 
-Lemma v_pw_reply s e r T ks x s' :
-  step_pw_reply s e r T ks x = Ok s' -> view_of s' = vcl (view_of s) T (pw_reply_rec (vgetc (view_of s) T) ks x).
+Lemma v_pw_deliver s r T ks x s' :
+  step_pw_deliver s r T ks x = Ok s' ->
+  (exists p a o m f secs, In (EPwSend r T p ks a o m f secs) (v_sent (view_of s))) /\
+  exists c', dlv_same (vgetc (view_of s) T) c' /\
+    view_of s' = vcl (vdlv (view_of s) (EPwReply r T ks x)) T c'.
 Proof.
-  unfold step_pw_reply. intros H. chk1 H E1. chk1 H E2. ok_inv H. reflexivity.
+  unfold step_pw_deliver. intros H.
+  chk1 H E1. chk1 H E2. cbv zeta in H. chk1 H E3. chk1 H E4. chk1 H E5.
+  split; [exact (sent_by_pw _ _ _ _ E1)|].
+  apply v_pw_tail in H. eexists. split; [| rewrite H; reflexivity].
+  change (vgetc (view_of s) T) with (getc s T).
+  eapply dlv_same_trans; [apply (dlv_same_kl _ KDlv ks); reflexivity|].
+  destruct x as [m o| |].
+  - match goal with |- dlv_same _ (if ?b then _ else _) => destruct b end.
+    + eapply dlv_same_trans; [| apply dlv_same_stfb].
+      destruct (o =? 0); [apply dlv_same_lam | apply dlv_same_refl].
+    + destruct (o =? 0); [apply dlv_same_lam | apply dlv_same_refl].
+  - apply dlv_same_kl; reflexivity.
+  - apply dlv_same_kl; reflexivity.
+Qed.
+
+Lemma v_pw_reply s r T ks x s' :
+  step_pw_reply s (EPwReply r T ks x) r T ks x = Ok s' ->
+  In (EPwReply r T ks x) (v_dlv (view_of s)) /\
+  view_of s' = vcl (view_of s) T (pw_reply_rec (vgetc (view_of s) T) ks x).
+Proof.
+  unfold step_pw_reply. intros H. chk1 H E1. chk1 H E2. chk1 H E3. ok_inv H.
+  split; [exact (delivered_pw _ _ _ _ _ E2) | reflexivity].
 Qed.
 
 Lemma v_cm_send s r T C ks s' :
@@ -53,15 +95,15 @@ Lemma v_cm_send s r T C ks s' :
 Proof.
   unfold step_cm_send. intros H. chk1 H E1. chk1 H E2. apply negb_true_iff in E2.
   destruct (fb (getc s T) FHasm) eqn:Eh.
-  - chk1 H E3. chk1 H E4. chk1 H E5. chk1 H E6. chk1 H E7.
+  - chk1 H E3. chk1 H E4. chk1 H E5. chk1 H E6. chk1 H E6b. chk1 H E7.
     apply N.ltb_lt in E5. apply N.leb_le in E6.
     destruct (mem (cn (getc s T) FPrim) ks) eqn:Em.
     + ok_inv H. cbn [vstep]. cbv zeta. change (vgetc (view_of s) T) with (getc s T).
       rewrite Eh, Em. split; [exact E2|]. split; [exact E4|]. split; [exact E5|].
-      split; [exact E6|]. split; [exact E7|]. reflexivity.
+      split; [exact E6|]. split; [exact E6b|]. split; [exact E7|]. reflexivity.
     + chk1 H E8. ok_inv H. cbn [vstep]. cbv zeta. change (vgetc (view_of s) T) with (getc s T).
       rewrite Eh, Em. split; [exact E2|]. split; [exact E4|]. split; [exact E5|].
-      split; [exact E6|]. split; [exact E7|]. split; [exact E8 | reflexivity].
+      split; [exact E6|]. split; [exact E6b|]. split; [exact E7|]. split; [exact E8 | reflexivity].
   - ok_inv H. cbn [vstep]. cbv zeta. change (vgetc (view_of s) T) with (getc s T).
     rewrite Eh. split; [exact E2 | reflexivity].
 Qed.
@@ -143,16 +185,22 @@ Proof.
 Qed.
 
 Lemma v_cts_deliver s r T p st s' :
-  step_cts_deliver s r T p st = Ok s' -> view_of s' = vdlv (view_of s) (ECtsReply r T p st).
+  step_cts_deliver s r T p st = Ok s' ->
+  exists c', dlv_same (vgetc (view_of s) T) c' /\
+    (view_of s' = vdlv (view_of s) (ECtsReply r T p st) \/
+     view_of s' = vcl (vdlv (view_of s) (ECtsReply r T p st)) T c').
 Proof.
   unfold step_cts_deliver. intros H. chk1 H E1. cbv zeta in H.
-  destruct st; try (ok_inv H; reflexivity).
-  - destruct (step_key _ T p (tr_cts_locked m)) eqn:K; try discriminate. ok_inv H.
-    apply step_key_view in K. rewrite K. reflexivity.
+  exists (setn (getc s T) FStFb 1). split; [apply dlv_same_stfb|].
+  destruct st; try (ok_inv H; left; reflexivity).
+  - chk1 H F1. chk1 H F2. chk1 H F3. chk1 H F4.
+    destruct (step_key _ T p (tr_cts_locked m)) eqn:K; try discriminate. ok_inv H.
+    apply step_key_view in K. rewrite K. left. reflexivity.
   - destruct (step_key _ T p (tr_cts_committed c)) eqn:K; try discriminate. ok_inv H.
-    apply step_key_view in K. rewrite K. reflexivity.
-  - chk1 H E2. destruct (step_key _ T p tr_rb) eqn:K; try discriminate. ok_inv H.
-    apply step_key_view in K. rewrite K. reflexivity.
+    apply step_key_view in K. rewrite K. left. reflexivity.
+  - chk1 H E2. chk1 H E3. destruct (step_key _ T p tr_rb) eqn:K; try discriminate. ok_inv H.
+    apply step_key_view in K. rewrite K.
+    match goal with |- context [if ?b then _ else _] => destruct b end; [right | left]; reflexivity.
 Qed.
 
 Lemma v_csl_deliver s r T ks st s' :
@@ -160,10 +208,10 @@ Lemma v_csl_deliver s r T ks st s' :
 Proof.
   unfold step_csl_deliver. intros H. chk1 H E1. cbv zeta in H.
   destruct st.
-  - destruct (step_csl_locks _ T l) eqn:K; try discriminate. ok_inv H.
+  - chk1 H F1. chk1 H F2. destruct (step_csl_locks _ T l) eqn:K; try discriminate. ok_inv H.
     apply step_csl_locks_view in K. rewrite K. reflexivity.
-  - destruct (c =? 0); [| ok_inv H; reflexivity].
-    destruct (step_keys _ T ks tr_csl_rb) eqn:K; try discriminate. ok_inv H.
+  - destruct (c =? 0); [| chk1 H F1; ok_inv H; reflexivity].
+    chk1 H F1. destruct (step_keys _ T ks tr_csl_rb) eqn:K; try discriminate. ok_inv H.
     apply step_keys_view in K. rewrite K. reflexivity.
   - ok_inv H. reflexivity.
 Qed.
@@ -209,7 +257,10 @@ Proof.
       right. left. split; [reflexivity|]. exists n. exact F1.
   - chk1 H E2. ok_inv H. split; [|reflexivity].
     apply orb_true_iff in E2. destruct E2 as [E2 | E2].
-    + right. right. left. unfold csl_missing in E2. apply existsb_exists in E2.
+    + right. right. left. apply andb_true_iff in E2. destruct E2 as [E2 E3].
+      apply async_cts_In in E3. destruct E3 as (p & ttl & m & secs & E3 & _).
+      split; [| exists p, ttl, m, secs; exact E3].
+      unfold csl_missing in E2. apply existsb_exists in E2.
       destruct E2 as [e0 [I1 I2]]. destruct e0; try discriminate. destruct st; try discriminate.
       repeat (apply andb_true_iff in I2; destruct I2 as [I2 ?]).
       apply N.eqb_eq in I2. subst.
@@ -251,7 +302,8 @@ Proof.
     apply negb_true_iff in E1.
     repeat match goal with X : (_ =? _) = true |- _ => apply N.eqb_eq in X end.
     cbv zeta. change (vgetc (view_of s) s0) with (getc s s0).
-    split; [exact E1|]. split; [assumption|]. split; [assumption|]. reflexivity.
+    split; [exact E1|]. split; [assumption|]. split; [assumption|].
+    split; [apply mem_In; exact E2 | reflexivity].
   - apply v_pw_send in H. exact H.
   - apply v_pw_deliver in H. exact H.
   - apply v_pw_reply in H. exact H.
@@ -270,7 +322,7 @@ Proof.
   - apply v_cts_send in H. exact H.
   - apply v_cts_deliver in H. exact H.
   - chk1 H E1. chk1 H E2. ok_inv H. reflexivity.
-  - unfold plain_send in H. chk1 H E1. ok_inv H. reflexivity.
+  - chk1 H E1. chk1 H E2. ok_inv H. split; [exact E2 | reflexivity].
   - apply v_csl_deliver in H. exact H.
   - chk1 H E1. chk1 H E2. ok_inv H. reflexivity.
   - apply v_rs_send in H. exact H.
